@@ -409,7 +409,7 @@ class Scenario:
             if self.rng.random() > self.hostile:
                 return
             self.legal = False
-        if self.frag and not term and (m['kind'] == 'rr' or m.get('subscribed')) and self.rng.random() < 0.12:
+        if self.frag and not term and not m.get('done') and (m['kind'] == 'rr' or m.get('subscribed')) and self.rng.random() < 0.12:
             self.abandoned_train(oid, m)
             return
         if m['kind'] == 'rr':
